@@ -19,10 +19,10 @@ func init() {
 		Explanation: "Structural necessary conditions of 'all storage backends and layers implement one key/value and listing contract' — the parts of the contract that are visible in the shape of the layers, not the contract's equalities: " +
 			"(1) prefix views return keys relative to the view (the entry read through a view carries the truncated key; confinement itself is C12.2, evaluated there); " +
 			"(2) layer transparency, as a family rule over EVERY storage-shaped type in the program (any type with List and ListPage of the storage signature: cache, key-encoding check, latency/error injectors, write notifier, their transactions, physical/logical views, barrier views, storage access shims, inmem/raft front ends, the plugin GRPC server): each Get/Put/Delete/List/ListPage that delegates to a same-named operation hands on the caller's key (or the layer's own key transform of it), 'after' and 'limit' unchanged, hands on the caller's value, reports success only across the delegated operation's success, returns what the delegated operation returned, all delegating operations of one layer type address the same wrapped store (one access path from the receiver: a transaction layer's Get reads the transaction its Put writes), and List(p) is ListPage(p, \"\", -1) wherever it is implemented by delegation to ListPage; " +
-			"(3) sibling agreement of the paginated seek in the raft backend: every bolt cursor Seek whose position derives from filepath.Join(prefix, after) lies behind 'after is non-empty and the joined position still starts with the prefix, else seek to the prefix' — in the plain listing and in the transactional one alike (F4, repaired by 54d7235); the iteration stops at the first key without the prefix; list verification replays through the plain listing; the two paginate-by-slicing implementations (plugin GRPC client, keysutil encrypted storage) agree on 'skip the element equal to after' and 'limit applies only when positive'; " +
+			"(3) sibling agreement of the paginated seek in the raft backend: every bolt cursor Seek whose position derives from filepath.Join(prefix, after) lies behind 'after is non-empty and the joined position still starts with the prefix, else seek to the prefix' — in the plain listing and in the transactional one alike (F4, repaired by 54d7235); the iteration stops at the first key without the prefix; list verification replays through the plain listing; the seek position of a paginated raft listing is never a cleaned path (filepath.Join/Clean of 'after' changes the byte order for values such as './x' or 'a/../x' and skips entries): it is prefix + after; the two paginate-by-slicing implementations (plugin GRPC client, keysutil encrypted storage) agree on 'skip the element equal to after' and 'limit applies only when positive'; " +
 			"(4) the recursive scan/clear helpers list the view they were given page by page with 'after' taken from the previous page, descend only into entries with a trailing slash, report only the others, build every path as directory + listed name, and delete exactly the reported paths from the same view; " +
 			"(5) the read cache is filled and invalidated only on the success edge of the wrapped operation, under the per-key lock, under the operation's key; a transaction's writes invalidate the parent cache only after the commit succeeded; " +
-			"second-tier mechanisms: the file backend's paginate-by-slicing is held to the sibling rules (search key is 'after', the element equal to 'after' is skipped, the cut applies only to a positive limit) and sorts the names before any search, slice or return of a non-empty listing; the in-memory walk's page-full test counts the accumulator the listing returns; the plain and transactional raft listings and the in-memory walk compare 'after' with the very entry name they emit on that decision (after folder collapsing); a failed in-memory commit restores the parent tree from a snapshot taken before the replay; a raft transaction's Put/Delete reach a nil-error return only past t.updates[key] = a put record carrying the caller's key and value / a delete record without contents; a cache's LRU is written only by its constructor with a fresh LRU; HandleListPage lists the storage, prefix and limit it was given with 'after' taken from the end of the previous page and ends normally only on an empty page, a non-positive limit or a page shorter than the limit; a transaction begun on a prefix view wraps the transaction begun on the view's storage under the view's own prefix; as a family over every type with Commit and Rollback whose Commit commits a handle reached from the receiver (a transaction layer wrapping another transaction), each Get/Put/Delete/List/ListPage it declares hands that same handle to a call (or delegates to a sibling operation that does), never only the non-transactional parent.",
+			"second-tier mechanisms: the file backend's paginate-by-slicing is held to the sibling rules (search key is 'after', the element equal to 'after' is skipped, the cut applies only to a positive limit) and sorts the names before any search, slice or return of a non-empty listing; the in-memory walk's page-full test counts the accumulator the listing returns; the plain and transactional raft listings and the in-memory walk compare 'after' with the very entry name they emit on that decision (after folder collapsing); a failed in-memory commit restores the parent tree from a snapshot taken before the replay; a raft transaction's Put/Delete reach a nil-error return only past t.updates[key] = a put record carrying the caller's key and value / a delete record without contents; a cache's LRU is written only by its constructor with a fresh LRU; HandleListPage lists the storage, prefix and limit it was given with 'after' taken from the end of the previous page and ends normally only on an empty page, a non-positive limit or a page shorter than the limit; a transaction begun on a prefix view wraps the transaction begun on the view's storage under the view's own prefix; as a family over every type with Commit and Rollback whose Commit commits a handle reached from the receiver (a transaction layer wrapping another transaction), each Get/Put/Delete/List/ListPage it declares hands that same handle to a call (or delegates to a sibling operation that does), never only the non-transactional parent; the file backend does not name the file of a key through a path-cleaning function of the key unless validatePath refuses keys that cleaning changes (known finding c13-file-trailing-slash).",
 		NotDecided: "get-after-put, immediate-children semantics, sorted order and 'paginated listing = slice of the full listing' as equalities over values and orders (they need a model and execution); the base implementations' own walks (inmem radix walk, file directory read, postgresql SQL, bolt cursor arithmetic beyond the seek guard); backends outside this repository.",
 		Run:        runC13,
 	})
@@ -649,6 +649,13 @@ func c13Seek(c *eng.Ctx) {
 			pos := sk.Common().Args[1]
 			any, all := c13FromJoin(pos)
 			if !any {
+				// the other shape of a paginated seek: the plain concatenation prefix + after, which
+				// starts with the prefix by construction (no guard needed); see c13gSeekNotCleaned
+				if c13gSeekConcat(pos) {
+					nSeek++
+					c.Clause("R8", "C13.3")
+					c.OK(f, "paginated seek stays within the prefix", sk.Pos(), "position = prefix + after")
+				}
 				continue
 			}
 			nSeek++
